@@ -1,10 +1,12 @@
-import SaModel.Build.Builder
+import SaModel.Spec.Leaf
 import SaModel.Spec.Decode
 /-
 The documented Rust → Arrow mapping as a function: `interp f x` is the logical value the column of field `f`
 must hold for the serde value `x`, or an error when `x` is not representable in `f` (C05).  Written
 independently of builder mechanics: records are matched by field *name*, numbers by *value*, variants by
-index; no offsets, bitmaps, counters or caches appear here.
+index; no offsets, bitmaps, counters or caches appear here.  This file does NOT import the builder model
+(`Build/*`): the leaves are `Spec/Leaf.lean`; `Ext` (functions of other crates), `strBytes`, `indexOfName`, `strategyOf`
+are `Data/Ext.lean`.
 
 A malformed call stream (map value without key …) has no meaning: `malformed`.
 -/
@@ -13,67 +15,19 @@ open SaModel SaModel.Build
 
 def malformed {α} : R α := fail "malformed-stream"
 
-/-- what a string means for the VALUE type of a dictionary column.  `build_builder` takes ANY value type for a
-`Dictionary`; the value builder receives every distinct string once, through `serialize_str`: the string types keep the
-string, the temporal and decimal types store the PARSED value (`Dictionary(Int8, Date32)` holds dates), a nested
-dictionary hands the string on to its own value type, every other type refuses strings. -/
-def interpDictStr (ext : Ext) : DataType → String → R LVal
-  | .utf8, s | .largeUtf8, s | .utf8View, s => .ok (.str (strBytes s))
-  | .date32, s => do pure (.int (← ext.parseDate false s))
-  | .date64, s => do pure (.int (← ext.parseDate true s))
-  | .time32 u, s => do pure (.int (← tryInto .i32 (← ext.parseTime u s)))
-  | .time64 u, s => do pure (.int (← ext.parseTime u s))
-  | .timestamp u tz, s => do
-    pure (.int (← ext.parseTimestamp u (match tz with | some t => t.toUpper == "UTC" | none => false) s))
-  | .duration u, s => do pure (.int (← ext.parseDuration u s))
-  | .decimal128 p sc, s => do pure (.int (← ext.parseDecimal p sc s))
-  | .dictionary _ v, s => interpDictStr ext v s
-  | _, _ => fail "the value type of the dictionary takes no strings"
+/-- what a string means for the VALUE type of a dictionary column: `Spec.dictValue` (Spec/Leaf.lean) -/
+def interpDictStr (ext : Ext) (dt : DataType) (s : String) : R LVal := liftO (dictValue ext dt s)
 
-/-- plain scalars -/
-def interpScalar (ext : Ext) (dt : DataType) (x : SVal) : R LVal :=
-  let kind : Option LeafKind :=
-    match dt with
-    | .boolean => some .bool
-    | .int8 => some (.int .i8) | .int16 => some (.int .i16) | .int32 => some (.int .i32) | .int64 => some (.int .i64)
-    | .uint8 => some (.int .u8) | .uint16 => some (.int .u16) | .uint32 => some (.int .u32) | .uint64 => some (.int .u64)
-    | .float16 => some .f16 | .float32 => some .f32 | .float64 => some .f64
-    | .date32 => some .date32 | .date64 => some .date64
-    | .time32 u => some (.time32 u) | .time64 u => some (.time64 u) | .duration u => some (.duration u)
-    | .timestamp u tz => some (.timestamp u tz (match tz with | some t => t.toUpper == "UTC" | none => false))
-    | .decimal128 p s => some (.decimal p s)
-    | _ => none
-  match kind with
-  | some k => do
-    let v ← convLeaf ext k x
-    match k with
-    | .bool => pure (.bool (v != 0))
-    | .f16 | .f32 | .f64 => pure (.float v)
-    | _ => pure (.int v)
-  | none =>
-    match dt with
-    | .utf8 | .largeUtf8 | .utf8View =>
-      match scalarToString ext x with
-      | some s => .ok (.str (strBytes s))
-      | none => fail "not a string"
-    | .binary | .largeBinary | .binaryView =>
-      match x with
-      | .bytes b => .ok (.bin b)
-      | _ => fail "not bytes"
-    | .fixedSizeBinary n =>
-      match x with
-      | .bytes b => if (b.length : Int) = n then .ok (.bin b) else fail "wrong length"
-      | _ => fail "not bytes"
-    | .dictionary _ v =>
-      -- the scalars a string column accepts, as strings, at the VALUE type of the dictionary
-      match scalarToString ext x with
-      | some s => interpDictStr ext v s
-      | none => fail "not a string"
-    | .null =>
-      match x with
-      | .unitStruct _ => .ok .null
-      | _ => fail "not a unit"
-    | _ => fail "not representable"
+/-- plain scalars: **the leaf table of the specification**, `Spec.specLeaf` (Spec/Leaf.lean — written from the
+documentation, independent of the builder model; `Lemmas/C01LeafBridge.lean` proves `interpScalar_eq_old`: the model's
+`convLeaf` / `scalarToString` compute it) -/
+def interpScalar (ext : Ext) (dt : DataType) (x : SVal) : R LVal := liftO (specLeaf ext dt x)
+
+/-- a binary value given element by element (`Spec.bytesOf`) -/
+def specBytes (xs : SVals) : R Bytes := liftO (bytesOf xs)
+
+/-- the field name a map key presents to a struct column (`Spec.keyOf`) -/
+def specKey (k : SVal) : R String := liftO (keyOf k)
 
 def isUnknownVariant (dt : DataType) (md : Metadata) : Bool :=
   match dt with
@@ -123,9 +77,9 @@ def interpDT (ext : Ext) (dt : DataType) (nullable : Bool) (md : Metadata) : SVa
     | .fixedSizeList (.mk _ cdt cn cmd) n => do
       let vs ← interpAll ext cdt cn cmd xs
       if (vs.length : Int) = n then pure (.list (LVals.ofList vs)) else fail "wrong element count"
-    | .binary | .largeBinary | .binaryView => do pure (.bin (← u8All xs))
+    | .binary | .largeBinary | .binaryView => do pure (.bin (← specBytes xs))
     | .fixedSizeBinary n => do
-      let b ← u8All xs
+      let b ← specBytes xs
       if (b.length : Int) = n then pure (.bin b) else fail "wrong length"
     | .struct _ => fail "a sequence is not a presentation of a record"
     | _ => fail "not a sequence type"
@@ -137,9 +91,9 @@ def interpDT (ext : Ext) (dt : DataType) (nullable : Bool) (md : Metadata) : SVa
     | .fixedSizeList (.mk _ cdt cn cmd) n => do
       let vs ← interpAll ext cdt cn cmd xs
       if (vs.length : Int) = n then pure (.list (LVals.ofList vs)) else fail "wrong element count"
-    | .binary | .largeBinary | .binaryView => do pure (.bin (← u8All xs))
+    | .binary | .largeBinary | .binaryView => do pure (.bin (← specBytes xs))
     | .fixedSizeBinary n => do
-      let b ← u8All xs
+      let b ← specBytes xs
       if (b.length : Int) = n then pure (.bin b) else fail "wrong length"
     | .struct fs => structOf fs.toList (fun f => interpNth ext f.dataType f.nullable f.metadata (indexOfName (fs.toList.map Field.name) f.name |>.getD 0) xs)
     | _ => fail "not a sequence type"
@@ -202,9 +156,9 @@ def interpDT (ext : Ext) (dt : DataType) (nullable : Bool) (md : Metadata) : SVa
         | .fixedSizeList (.mk _ edt en emd) n => do
           let vs ← interpAll ext edt en emd xs
           if (vs.length : Int) = n then pure (.union tid (.list (LVals.ofList vs))) else fail "wrong element count"
-        | .binary | .largeBinary | .binaryView => do pure (.union tid (.bin (← u8All xs)))
+        | .binary | .largeBinary | .binaryView => do pure (.union tid (.bin (← specBytes xs)))
         | .fixedSizeBinary n => do
-          let b ← u8All xs
+          let b ← specBytes xs
           if (b.length : Int) = n then pure (.union tid (.bin b)) else fail "wrong length"
         | _ => let _ := cn; fail "variant type is not a tuple"
       | none => fail "unknown variant"
@@ -252,12 +206,12 @@ def interpByKey (ext : Ext) (name : String) (dt : DataType) (nullable : Bool) (m
   | .nil => .ok []
   | .cons k x rest => do
     let vs ← interpByKey ext name dt nullable md rest
-    if (keyStr k).toOption == some name then do pure ((← interpDT ext dt nullable md x) :: vs) else pure vs
+    if keyOf k == some name then do pure ((← interpDT ext dt nullable md x) :: vs) else pure vs
 
 def interpByKeyOps (ext : Ext) (name : String) (dt : DataType) (nullable : Bool) (md : Metadata) : SMapOps → R (List LVal)
   | .key k (.value x rest) => do
     let vs ← interpByKeyOps ext name dt nullable md rest
-    if (keyStr k).toOption == some name then do pure ((← interpDT ext dt nullable md x) :: vs) else pure vs
+    if keyOf k == some name then do pure ((← interpDT ext dt nullable md x) :: vs) else pure vs
   | _ => .ok []
 
 def interpEntries (ext : Ext) (kdt : DataType) (kn : Bool) (kmd : Metadata) (vdt : DataType) (vn : Bool) (vmd : Metadata) :
@@ -282,13 +236,13 @@ def interpOps (ext : Ext) (kdt : DataType) (kn : Bool) (kmd : Metadata) (vdt : D
 def keysAreStrings : SEntries → R Unit
   | .nil => .ok ()
   | .cons k _ rest => do
-    let _ ← keyStr k
+    let _ ← specKey k
     keysAreStrings rest
 
 def opsKeysAreStrings : SMapOps → R Unit
   | .nil => .ok ()
   | .key k rest => do
-    let _ ← keyStr k
+    let _ ← specKey k
     opsKeysAreStrings rest
   | .value _ rest => opsKeysAreStrings rest
 end
